@@ -576,6 +576,12 @@ pub fn run(args: &Args) {
             let mut r2 = Rng::new(fi);
             let n = docs.len();
             run_case(&mut rep, &expr, &docs, "builtin-on-hostile-doc", n, &mut r2);
+            // what a function hands back (often one of its own inputs, not a fresh value) continued by
+            // every postfix form, and handed on to another call
+            let post = ["[]", "[0]", "[*]", ".*", "[?@]", "[::-1]", "[-1]", " | [0]", "[][]", ".k", "[*].k", " || `1`"][(fi % 12) as usize];
+            run_case(&mut rep, &format!("{}{}", expr, post), &docs, "builtin-result-continued", n, &mut r2);
+            let outer = ["to_array", "not_null", "length", "reverse", "sort", "keys", "to_string", "type"][(fi % 8) as usize];
+            run_case(&mut rep, &format!("{}({})[]", outer, expr), &docs, "builtin-result-continued", n, &mut r2);
             mark("E", case_id);
         }
     }
